@@ -5,6 +5,7 @@ V = os.path.dirname(os.path.dirname(os.path.abspath(__file__)))
 props = [json.loads(l) for l in open(os.path.join(V, "properties.jsonl"))]
 have = {f[:-3].upper() for f in os.listdir(os.path.join(V, "harness", "props")) if f.startswith("c") and f.endswith(".py")}
 NOTES = json.load(open(os.path.join(V, "tools", "levels.json")))
+REG = json.load(open(os.path.join(V, "lean", "theorems.json")))
 checks, na = [], []
 for p in props:
     pid = p["id"]
@@ -19,7 +20,7 @@ for p in props:
         evidence_file="evidence/%s.json" % pid,
         replay_cmd_template="./check %s --replay {path}" % pid,
         engine="lean-model+correspondence",
-        level_claimed=dict(category=n.get("category", "proof"), text=n["text"], design_ref="DESIGN.md section 7, " + pid),
+        level_claimed=dict(category=(n.get("category", "proof") if REG.get(pid) else "other"), text=n["text"], design_ref="DESIGN.md section 7, " + pid),
         level_note=n["note"],
         technique=n.get("technique", "Lean 4 theorems about a hand-written executable model + differential correspondence with the implementation + Lean-decided oracles on the implementation's outputs"),
     ))
